@@ -143,14 +143,20 @@ Proof. vm_compute. split; reflexivity. Qed.
 Theorem C05_read_json_partial :
   forall (lt : string -> bool) (cls : string) (v : value),
     wfb json_meta (BObj [cls]) v = true -> deps_ok json_spec_min v = true ->
-    dec json_spec_min json_meta false (DcObj cls) (enc_auto json_spec_min lt false v) = Some v /\
+    dec json_spec_min json_meta false (DcObj cls) (enc_auto json_spec_min lt false v) = Some v.
+Proof.
+  intros lt cls v Hwf Hdeps.
+  exact (roundtrip json_spec_min json_meta lt (proj1 C05_read_json_compat) v (BObj [cls]) EAuto (DcObj cls) Hwf Hdeps
+                   (String.eqb_refl cls)).
+Qed.
+Theorem C05_read_json_explicit_defaults_partial :
+  forall (lt : string -> bool) (cls : string) (v : value),
+    wfb json_meta (BObj [cls]) v = true -> deps_ok json_spec_explicit v = true ->
     dec json_spec_explicit json_meta false (DcObj cls) (enc_auto json_spec_explicit lt false v) = Some v.
 Proof.
-  intros lt cls v Hwf Hdeps. split.
-  - exact (roundtrip json_spec_min json_meta lt (proj1 C05_read_json_compat) v (BObj [cls]) EAuto (DcObj cls) Hwf Hdeps
-                     (String.eqb_refl cls)).
-  - exact (roundtrip json_spec_explicit json_meta lt (proj2 C05_read_json_compat) v (BObj [cls]) EAuto (DcObj cls) Hwf
-                     Hdeps (String.eqb_refl cls)).
+  intros lt cls v Hwf Hdeps.
+  exact (roundtrip json_spec_explicit json_meta lt (proj2 C05_read_json_compat) v (BObj [cls]) EAuto (DcObj cls) Hwf
+                   Hdeps (String.eqb_refl cls)).
 Qed.
 
 (* What C05_read_json_partial does not reach, because no value of the SDK's universe stands for it: literals of a
